@@ -25,6 +25,7 @@ CONT = re.compile(r'\b(XalanVector|XalanList|XalanDeque|XalanMap|XalanSet|vector
 REL = {'XalanDestroy', 'destroy', 'deallocate', 'destroyObject', 'XalanDestruct'}
 REMOVE = {'pop_front', 'pop_back', 'erase', 'clear'}
 PUSH = {'push_back', 'push_front', 'insert', 'push', 'addNode', 'add'}
+RELNAME = re.compile(r'^(delete|destroy|return|release|dispose|free)[A-Z_]')
 NONREAD = {'getMemoryManager', 'size', 'empty', 'count', 'max_size', 'capacity', 'reserve'}
 
 
@@ -225,6 +226,15 @@ def stmt_events(flow, rel, n_ast):
             s = flow.reads(c['args'][-1])
             if s:
                 ev.append(('transfer', s, c))
+        elif RELNAME.match(n) and c.get('k') in ('Call', 'MCall') and c.get('args') and c.get('fn'):
+            # deleteObject(p), returnXPath(p), ...: a helper named for it that reaches a release primitive (or has no body here: an interface)
+            has_body = bool(rel.facts.asts(c['fn'], must=False) or rel.facts.asts(short(c['fn']), must=False))
+            if not has_body or rel.fn_releases(c['fn']) or (c.get('virt') and any(rel.fn_releases(rel.facts.name.get(o, '')) for o in sorted(rel.facts.cg.all_over(c.get('usr')))[:8])):
+                s = set()
+                for e in c['args']:
+                    s |= flow.reads(e)
+                if s:
+                    ev.append(('release', s, c))
         elif n == 'swap' and c.get('k') == 'MCall' and c.get('args'):
             s = flow.reads(c['args'][0]) | flow.reads(c.get('obj'))
             if s:
@@ -253,6 +263,13 @@ def stmt_events(flow, rel, n_ast):
                 s = flow.reads(x['rhs'])
                 if s:
                     ev.append(('transfer', s, x))
+            elif isinstance(t, dict) and ((t.get('k') == 'MCall' and t.get('n') in ('back', 'front')) or (t.get('k') == 'OpCall' and t.get('op') == '[]')):
+                # slot of a pointer container assigned: c.back() = p
+                base = strip_casts(t.get('obj') if t.get('k') == 'MCall' else t['args'][0])
+                if isinstance(base, dict) and base.get('k') == 'Member' and is_ptr_cont(base.get('ty')):
+                    s = flow.reads(x['rhs'])
+                    if s:
+                        ev.append(('transfer', s, x))
         elif k == 'MCall' and x.get('n') and x['n'].startswith('~'):
             s = flow.reads(x.get('obj'))
             if s:
@@ -363,140 +380,181 @@ def key_absent(flow, conds, cont_field, key_txt):
     return False
 
 
+def root_ref(e):
+    """the variable a value expression is built on: strips casts, &x, *x, x->y / x.y reads"""
+    e = strip_casts(e)
+    while isinstance(e, dict):
+        if e.get('k') == 'Un' and e.get('op') in ('&', '*'):
+            e = strip_casts(e['e'])
+        elif e.get('k') == 'Ctor' and len(e.get('args', [])) == 1:
+            e = strip_casts(e['args'][0])
+        else:
+            break
+    return e if isinstance(e, dict) and e.get('k') == 'Ref' else None
+
+
+def is_map_member(o):
+    return isinstance(o, dict) and o.get('k') == 'Member' and 'XalanMap<' in (o.get('ty') or '') and is_ptr_cont(o.get('ty'))
+
+
+def collect_stores(a):
+    """keyed stores into pointer maps in one function: [(field, kind, key text, value text, node)], kind in insert / assign / slot"""
+    out = []
+    slots = {}
+    for x in walk(a['body']):
+        k = x.get('k')
+        if k == 'MCall' and x.get('n') == 'insert' and len(x.get('args', [])) == 2 and is_map_member(strip_casts(x.get('obj'))):
+            out.append((field_of(strip_casts(x['obj'])), 'insert', pp(strip_casts(x['args'][0])), pp(strip_casts(x['args'][1])), x))
+        elif k in ('Bin', 'OpCall') and x.get('op') == '=':
+            lhs, rhs = (x['lhs'], x['rhs']) if k == 'Bin' else (x['args'][0], x['args'][1]) if len(x['args']) == 2 else (None, None)
+            t = strip_casts(lhs) if lhs is not None else None
+            if isinstance(t, dict) and t.get('k') == 'OpCall' and t.get('op') == '[]' and is_map_member(strip_casts(t['args'][0])):
+                out.append((field_of(strip_casts(t['args'][0])), 'assign', pp(strip_casts(t['args'][1])), pp(strip_casts(rhs)), x))
+            elif isinstance(t, dict) and t.get('k') == 'Ref' and t.get('id') in slots:
+                f, key, decl = slots[t['id']]
+                out.append((f, 'slot', key, pp(strip_casts(rhs)), x))
+        elif k == 'Decl':
+            for v in x.get('vars', []):
+                init = strip_casts(v.get('init')) if v.get('init') is not None else None
+                if isinstance(init, dict) and init.get('k') == 'OpCall' and init.get('op') == '[]' and (v.get('ty') or '').rstrip().endswith('&') and is_map_member(strip_casts(init['args'][0])):
+                    slots[v['id']] = (field_of(strip_casts(init['args'][0])), pp(strip_casts(init['args'][1])), x)
+    return out, slots
+
+
 def run_rules(res, facts, tier):
     rel = Releasers(facts)
     own, touched = discover(facts, rel)
     r6 = res.rule('C19-R6', 'owning pointer containers (derived: containers whose elements library code releases): every pop / erase / clear is covered by a release or a '
-                  'transfer of the removed pointer on every path through it, is an erase by value, or is a clear() accompanied by a release of all elements; '
-                  'otherwise the block is unreachable and never goes back to the manager', floor=25)
+                  'transfer of the removed pointer on every path through it, removes an element the caller named and still holds, or is a clear() accompanied by a release '
+                  'of all elements; otherwise the block is unreachable and never goes back to the manager', floor=25)
     r7 = res.rule('C19-R7', 'keyed stores of owned pointers into owning maps: XalanMap::insert does not replace and operator[] assignment overwrites; the key is known '
-                  'absent, or equal to the value stored, or the value overwritten is released', floor=5)
-    if len(own) < 2:
-        raise AnalysisBroken('only %d owning pointer containers discovered (floor 20)' % len(own))
-    res.note = getattr(res, 'note', None)
-    seen_sites = set()
+                  'absent, or is the pointer stored, or the value overwritten is released', floor=5)
+    if len(own) < 25:
+        raise AnalysisBroken('only %d owning pointer containers discovered (floor 25)' % len(own))
+    # pass 1: keyed stores; identity maps (every store puts a pointer under itself)
+    stores_by_fn = {}
+    per_field = collections.defaultdict(list)
+    for k, a, flow in touched:
+        st, slots = collect_stores(a)
+        st = [x for x in st if x[0] in own]
+        if st:
+            stores_by_fn[k] = st
+            for f, kind, key, val, node in st:
+                per_field[f].append(key == val)
+    identity = {f for f, v in per_field.items() if v and all(v)}
+    seen = set()
     for k, a, flow in touched:
         fn = strip_t(short(facts.name[k]))
-        sites = []
+        removals = []
         for c in calls(a['body']):
-            if c.get('k') != 'MCall':
+            if c.get('k') != 'MCall' or cname(c) not in REMOVE:
                 continue
             o = strip_casts(c.get('obj'))
-            if not (isinstance(o, dict) and o.get('k') == 'Member' and is_ptr_cont(o.get('ty'))):
-                continue
-            f = field_of(o)
-            if f not in own:
-                continue
-            if cname(c) in REMOVE:
-                sites.append(('remove', f, c, o))
-            elif cname(c) == 'insert' and 'XalanMap<' in (o.get('ty') or '') and len(c.get('args', [])) == 2:
-                sites.append(('insert', f, c, o))
-        stores = []
-        for x in walk(a['body']):
-            if x.get('k') == 'Bin' and x['op'] == '=':
-                t = strip_casts(x['lhs'])
-                if isinstance(t, dict) and t.get('k') == 'OpCall' and t.get('op') == '[]':
-                    o = strip_casts(t['args'][0])
-                    if isinstance(o, dict) and o.get('k') == 'Member' and 'XalanMap<' in (o.get('ty') or '') and is_ptr_cont(o.get('ty')) and field_of(o) in own:
-                        stores.append((field_of(o), x, t))
-        if not sites and not stores:
+            if isinstance(o, dict) and o.get('k') == 'Member' and is_ptr_cont(o.get('ty')) and field_of(o) in own:
+                removals.append((field_of(o), c, o))
+        st = stores_by_fn.get(k, [])
+        if not removals and not st:
             continue
         cfg = CFG(a)
-        must = None
+        must = common.must_conds(cfg)
         node_of = {}
-        events = {}
         for n in cfg.nodes:
             if n.ast is None or n.kind not in ('stmt', 'cond'):
                 continue
-            events[n.id] = stmt_events(flow, rel, n.ast)
-            for c in calls(n.ast):
-                node_of[id(c)] = n
             for x in walk(n.ast):
-                if x.get('k') == 'Bin':
-                    node_of[id(x)] = n
-        for kind, f, c, o in sites:
+                node_of[id(x)] = n
+        # aliases: an iterator found by value names the value searched for
+        for x in walk(a['body']):
+            if x.get('k') != 'Decl':
+                continue
+            for v in x.get('vars', []):
+                init = strip_casts(v.get('init')) if v.get('init') is not None else None
+                while isinstance(init, dict) and init.get('k') == 'Ctor' and len(init.get('args', [])) == 1:
+                    init = strip_casts(init['args'][0])
+                if not isinstance(init, dict):
+                    continue
+                val = None
+                fld = None
+                if init.get('k') == 'Call' and cname(init) == 'find' and len(init.get('args', [])) == 3:
+                    fs = flow.reads(init['args'][0])
+                    if len(fs) == 1:
+                        fld, val = list(fs)[0], init['args'][2]
+                elif init.get('k') == 'MCall' and init.get('n') == 'find' and init.get('args'):
+                    o = strip_casts(init.get('obj'))
+                    if isinstance(o, dict) and o.get('k') == 'Member' and is_ptr_cont(o.get('ty')):
+                        f0 = field_of(o)
+                        if f0 in identity or 'XalanSet<' in (o.get('ty') or ''):
+                            fld, val = f0, init['args'][0]
+                if fld and val is not None:
+                    rr = root_ref(val)
+                    if rr is not None:
+                        flow.derived.setdefault(rr['id'], set()).add(fld)
+        events = {}
+        for n in cfg.nodes:
+            if n.ast is not None and n.kind in ('stmt', 'cond'):
+                events[n.id] = stmt_events(flow, rel, n.ast)
+        for f, c, o in removals:
             n = node_of.get(id(c))
             key = (fn, f, cname(c), c.get('l'))
-            if key in seen_sites or n is None:
+            if key in seen or n is None:
                 continue
-            seen_sites.add(key)
-            site = '%s: %s.%s()' % (fn, f.split('::')[-1], cname(c))
-            loc = common.file_line(a, c)
-            if kind == 'insert':
-                must = must or common.must_conds(cfg)
-                ktxt, vtxt = pp(strip_casts(c['args'][0])), pp(strip_casts(c['args'][1]))
-                owned_val = 'get()' in vtxt or 'release' in vtxt or 'create(' in vtxt or 'clone(' in vtxt
-                if not owned_val:
-                    r7.ok(site, 'stores %s: not an object created here' % vtxt[:40])
-                elif key_absent(flow, must.get(n.id, []), f, ktxt):
-                    r7.ok(site, 'key known absent')
-                elif ktxt == vtxt:
-                    r7.ok(site, 'key is the pointer stored')
-                else:
-                    r7.violation(site, 'insert(%s, %s) leaves the map unchanged when the key is already present, and the key is not known to be absent: the object just created is dropped '
-                                 '(its guard is released) and never returned to the manager' % (ktxt[:30], vtxt[:30]), loc)
-                continue
+            seen.add(key)
             nm = cname(c)
-            if nm == 'erase' and c.get('args'):
-                arg = strip_casts(c['args'][0])
-                aty = (arg.get('ty') or '') if isinstance(arg, dict) else ''
-                by_iter = 'Iterator' in aty or 'iterator' in aty or aty.endswith('* *') or (isinstance(arg, dict) and arg.get('k') == 'Ref' and arg.get('id') in flow.derived and '*' not in aty.replace('* *', ''))
-                if not by_iter:
-                    is_map = 'XalanMap<' in (o.get('ty') or '')
-                    if not is_map:
-                        r6.ok(site, 'erase by value: %s still names the pointer' % pp(arg)[:30])
-                        continue
-            rel_ids = {nid for nid, evs in events.items() if any(kd in ('release', 'transfer', 'release_all', 'swap') and f in s for kd, s, _ in evs)}
+            site = '%s: %s.%s()' % (fn, f.split('::')[-1], nm)
+            loc = common.file_line(a, c)
+            evidence = sorted(own[f])[0][:90]
             if nm == 'clear':
-                earlier = [nid for nid, evs in events.items() for kd, s, nd in evs if f in s and kd in ('release', 'release_all', 'swap', 'transfer') and (nd.get('l') or 0) <= (c.get('l') or 0)]
+                earlier = [1 for nid, evs in events.items() for kd, s, nd in evs if f in s and kd in ('release', 'release_all', 'swap', 'transfer') and (nd.get('l') or 0) <= (c.get('l') or 0)]
                 srcs = allocator_sources(facts, touched, f)
                 arena = [cc for cc in calls(a['body']) if cc.get('k') == 'MCall' and cname(cc) in ('reset', 'clear') and isinstance(strip_casts(cc.get('obj')), dict) and strip_casts(cc['obj']).get('k') == 'Member' and strip_casts(cc['obj'])['m'] in srcs]
-                must = must or common.must_conds(cfg)
                 if earlier:
                     r6.ok(site, 'release-all: elements released / handed over before the clear')
                 elif arena:
                     r6.ok(site, 'release-all: elements live in %s, reset in the same function' % strip_casts(arena[0]['obj'])['m'])
                 else:
-                    r6.violation(site, 'clear() drops every pointer of an owning container (%s) and nothing in this function releases or hands over the elements' % sorted(own[f])[0][:90], loc)
+                    r6.violation(site, 'clear() drops every pointer of an owning container (%s) and nothing in this function releases or hands over the elements' % evidence, loc)
                 continue
+            if nm == 'erase' and c.get('args'):
+                arg = strip_casts(c['args'][0])
+                rr = root_ref(arg)
+                aty = (arg.get('ty') or '') if isinstance(arg, dict) else ''
+                is_iter = 'terator' in aty or (rr is not None and f in flow.derived.get(rr['id'], set()) and rr.get('d') == 'local')
+                by_value_ok = ('XalanMap<' not in (o.get('ty') or '')) or f in identity
+                if not is_iter and by_value_ok and rr is not None:
+                    flow.derived.setdefault(rr['id'], set()).add(f)
+                    events = {nn.id: stmt_events(flow, rel, nn.ast) for nn in cfg.nodes if nn.ast is not None and nn.kind in ('stmt', 'cond')}
+                    if rr.get('d') == 'param':
+                        rel_ids = {nid for nid, evs in events.items() if any(kd in ('release', 'transfer') and f in s for kd, s, _ in evs)}
+                        r6.ok(site, 'erase by value of the caller\'s pointer %s%s' % (pp(arg)[:30], ' (released here)' if rel_ids else ' (the caller still holds it)'))
+                        continue
+            rel_ids = {nid for nid, evs in events.items() if any(kd in ('release', 'transfer', 'release_all', 'swap') and f in s for kd, s, _ in evs)}
             if covered(cfg, n, rel_ids):
                 r6.ok(site, 'released or transferred on every path through the removal')
             else:
-                r6.violation(site, 'the pointer removed here is neither released nor handed over on every path through the removal (elements of this container are owned: %s)' % sorted(own[f])[0][:90], loc)
-        for f, x, t in stores:
-            n = node_of.get(id(x))
-            key = (fn, f, '[]=', x.get('l'))
-            if key in seen_sites or n is None:
+                r6.violation(site, 'the pointer removed here is neither released nor handed over on every path through the removal (elements of this container are owned: %s)' % evidence, loc)
+        for f, kind, ktxt, vtxt, node in st:
+            n = node_of.get(id(node))
+            key = (fn, f, kind, node.get('l'))
+            if key in seen:
                 continue
-            seen_sites.add(key)
-            site = '%s: %s[..] = ..' % (fn, f.split('::')[-1])
-            must = must or common.must_conds(cfg)
-            ktxt, vtxt = pp(strip_casts(t['args'][1])), pp(strip_casts(x['rhs']))
-            if key_absent(flow, must.get(n.id, []), f, ktxt):
-                r7.ok(site, 'key known absent')
+            seen.add(key)
+            short_f = f.split('::')[-1]
+            site = '%s: %s %s' % (fn, short_f, {'insert': 'insert(key, pointer)', 'assign': '[key] = pointer', 'slot': 'slot reference assigned'}[kind])
+            loc = common.file_line(a, node)
+            conds = must.get(n.id, []) if n is not None else []
+            if kind == 'insert' and not any(t in vtxt for t in ('get()', 'release', 'create(', 'clone(')) and ktxt != vtxt:
+                r7.ok(site, 'stores %s: not an object created here' % vtxt[:40])
             elif ktxt == vtxt:
                 r7.ok(site, 'key is the pointer stored')
+            elif key_absent(flow, conds, f, ktxt):
+                r7.ok(site, 'key known absent')
+            elif kind in ('assign', 'slot') and any(kd == 'release' and f in s for kd, s, _ in stmt_events(flow, rel, a['body'])):
+                r7.ok(site, 'old value read from the map and released')
+            elif kind == 'insert':
+                r7.violation(site, 'insert(%s, %s) leaves the map unchanged when the key is already present, and the key is not known to be absent: the object just created is dropped '
+                             '(its guard is released) and never returned to the manager' % (ktxt[:30], vtxt[:30]), loc)
             else:
-                r7.violation(site, '%s[%s] = %s overwrites the pointer stored under a key not known to be absent, without releasing it' % (f.split('::')[-1], ktxt[:30], vtxt[:30]), common.file_line(a, x))
-    # references to slots: T*& slot = m[k]; the old value must be released when the slot is overwritten
-    for k, a, flow in touched:
-        fn = strip_t(short(facts.name[k]))
-        for x in walk(a['body']):
-            if x['k'] != 'Decl':
-                continue
-            for v in x.get('vars', []):
-                init = strip_casts(v.get('init')) if v.get('init') is not None else None
-                if isinstance(init, dict) and init.get('k') == 'OpCall' and init.get('op') == '[]' and (v.get('ty') or '').rstrip().endswith('&'):
-                    o = strip_casts(init['args'][0])
-                    if isinstance(o, dict) and o.get('k') == 'Member' and 'XalanMap<' in (o.get('ty') or '') and is_ptr_cont(o.get('ty')) and field_of(o) in own:
-                        site = '%s: %s& = %s[..]' % (fn, v['n'], o['m'])
-                        if (fn, site) in seen_sites:
-                            continue
-                        seen_sites.add((fn, site))
-                        evs = stmt_events(flow, rel, a['body'])
-                        if any(kd == 'release' and field_of(o) in s for kd, s, _ in evs):
-                            r7.ok(site, 'slot overwritten, old value released')
-                        else:
-                            r7.violation(site, 'the slot is bound by reference and overwritten, the old pointer is not released', common.file_line(a, x))
-    res.assume('C19-R6/R7 decide removal and keyed-store sites of %d owning containers; leaks through other shapes (a raw pointer member overwritten, an early return between create and store) are not decided' % len(own))
+                r7.violation(site, '%s[%s] = %s overwrites the pointer stored under a key not known to be absent, without releasing it' % (short_f, ktxt[:30], vtxt[:30]), loc)
+    res.assume('C19-R6/R7 decide removal and keyed-store sites of %d owning containers (identity maps: %s); leaks through other shapes (a raw pointer member overwritten, an early return '
+               'between create and store, uninstantiated template members) are not decided' % (len(own), sorted(x.split('::')[-1] for x in identity)))
     return own
